@@ -23,6 +23,7 @@ import (
 	"reflect"
 	"regexp/syntax"
 	"sort"
+	"strconv"
 	"strings"
 	"testing"
 	"time"
@@ -143,6 +144,7 @@ func vfC38OptsJSON(o *Options) map[string]any {
 // the corpus of the end-to-end oracle is indexed differently), generic ones for everything else / new fields.
 type vfC38Env struct {
 	u1, u2, s1, s2, fail string
+	u1alt, s1alt         string // binaries with the base names of u1 / s1 in another directory, behaving like u2 / s2
 }
 
 func vfC38Flip(r *vfRand, o *Options, f string, env *vfC38Env) {
@@ -235,6 +237,181 @@ func vfC38Flip(r *vfRand, o *Options, f string, env *vfC38Env) {
 		m.SetMapIndex(reflect.ValueOf("x"), reflect.ValueOf(uint8(1)).Convert(rv.Type().Elem()))
 		rv.Set(m)
 	}
+}
+
+// ---------------------------------------------------------------- list- and map-valued options
+//
+// LargeFiles ([]string): the ORDER is significant — Options.IgnoreSizeMax scans from the end, the LAST matching pattern
+// wins, and a pattern may be negated ("!..."); so a permutation (or a de-duplication) of the same patterns can select a
+// different set of files. LanguageMap (map[string]uint8): a Go map has no order; the same entries inserted in another
+// order are the same option value and must hash the same (GetHash sorts the keys).
+
+var vfC38Patterns = []string{"big.txt", "!big.txt", "*.txt", "!*.txt", "**/*.txt", "many.txt", "!many.txt", "big.*", "!big.*",
+	"gen/**", "!gen/data.big", "**/*.big", "vendor/**", "!vendor/dep/*.go",
+	"gr\u00f6\u00dfe/*.txt", "tab\there", "bad\xffutf8", `back\slash"quote`, "\u2028x", "nul\x00"}
+
+// names probed with IgnoreSizeMax: the corpus of the end-to-end oracle plus a few paths the patterns talk about
+var vfC38Probes = []string{"small.go", "big.txt", "many.txt", "other.go", "notes.txt", ".hidden.go", "vendor/dep/dep.go", "a_test.go", "gen.pb.go",
+	"bin.dat", "gen/data.big", "x/y.big", "gen/z.txt", "big.bin"}
+
+func vfC38GenLargeFiles(r *vfRand) []string {
+	n := r.Intn(5)
+	var out []string
+	for i := 0; i < n; i++ {
+		if len(out) > 0 && r.Chance(15) {
+			out = append(out, out[r.Intn(len(out))]) // duplicate
+		} else {
+			out = append(out, r.Pick(vfC38Patterns))
+		}
+	}
+	return out
+}
+
+// vfC38ListVariants: rearrangements of a list that keep its SET of elements: reversed, rotated, two swapped, sorted,
+// de-duplicated (first occurrences kept), one element duplicated at the end.
+func vfC38ListVariants(l []string) map[string][]string {
+	out := map[string][]string{}
+	cp := func() []string { return append([]string(nil), l...) }
+	if len(l) >= 2 {
+		rev := cp()
+		for i, j := 0, len(rev)-1; i < j; i, j = i+1, j-1 {
+			rev[i], rev[j] = rev[j], rev[i]
+		}
+		out["reversed"] = rev
+		out["rotated"] = append(cp()[1:], l[0])
+		sw := cp()
+		sw[0], sw[1] = sw[1], sw[0]
+		out["swapped"] = sw
+		so := cp()
+		sort.Strings(so)
+		out["sorted"] = so
+		seen := map[string]bool{}
+		var dd []string
+		for _, x := range l {
+			if !seen[x] {
+				seen[x] = true
+				dd = append(dd, x)
+			}
+		}
+		out["deduplicated"] = dd
+	}
+	if len(l) >= 1 {
+		out["first-repeated-at-end"] = append(cp(), l[0])
+	}
+	for k, v := range out {
+		if reflect.DeepEqual(v, l) {
+			delete(out, k)
+		}
+	}
+	return out
+}
+
+func vfC38SameLargeFileDecisions(o1, o2 *Options) (string, bool) {
+	for _, n := range vfC38Probes {
+		if o1.IgnoreSizeMax(n) != o2.IgnoreSizeMax(n) {
+			return n, false
+		}
+	}
+	return "", true
+}
+
+// vfC38ReinsertMap: the same map built with another insertion order
+func vfC38ReinsertMap(r *vfRand, m ctags.LanguageMap) ctags.LanguageMap {
+	if m == nil {
+		return nil
+	}
+	keys := vfSortedKeys(m)
+	for i := len(keys) - 1; i > 0; i-- {
+		j := r.Intn(i + 1)
+		keys[i], keys[j] = keys[j], keys[i]
+	}
+	out := ctags.LanguageMap{}
+	for _, k := range keys {
+		out[k] = m[k]
+	}
+	return out
+}
+
+// ---------------------------------------------------------------- the bytes GetHash hashes (ByteCase)
+
+// vfC38RefBytes: a reference encoder of what GetHash feeds into SHA-1, written with strconv only (no fmt): the raw
+// CTagsPath, true/false, the decimal SizeMax, the quoted LargeFiles in brackets separated by one space, true/false,
+// and the three later additions when they differ from their defaults. It is NOT trusted: the harness checks that
+// its SHA-1 is the real GetHash() on every sample, and the Coq byte model must produce exactly these bytes.
+func vfC38RefBytes(o *Options) []byte {
+	var b []byte
+	b = append(b, o.CTagsPath...)
+	b = strconv.AppendBool(b, o.CTagsMustSucceed)
+	b = strconv.AppendInt(b, int64(o.SizeMax), 10)
+	b = append(b, '[')
+	for i, s := range o.LargeFiles {
+		if i > 0 {
+			b = append(b, ' ')
+		}
+		b = strconv.AppendQuote(b, s)
+	}
+	b = append(b, ']')
+	b = strconv.AppendBool(b, o.DisableCTags)
+	if o.TrigramMax != 0 && o.TrigramMax != defaultTrigramMax {
+		b = append(b, "trigramMax="...)
+		b = strconv.AppendInt(b, int64(o.TrigramMax), 10)
+	}
+	if o.ScipCTagsPath != "" {
+		b = append(b, "scipCTagsPath="...)
+		b = strconv.AppendQuote(b, o.ScipCTagsPath)
+	}
+	for _, k := range vfSortedKeys(o.LanguageMap) {
+		b = append(b, "languageMap="...)
+		b = strconv.AppendQuote(b, k)
+		b = append(b, ':')
+		b = strconv.AppendInt(b, int64(o.LanguageMap[k]), 10)
+	}
+	return b
+}
+
+// vfC38QuoteBody: strconv.Quote(s) without the surrounding quotes, and whether it has the shape the proofs assume:
+// delimited by double quotes, every double quote inside directly preceded by a backslash.
+func vfC38QuoteBody(s string) (string, bool) {
+	q := strconv.Quote(s)
+	if len(q) < 2 || q[0] != '"' || q[len(q)-1] != '"' {
+		return q, false
+	}
+	body := q[1 : len(q)-1]
+	for i := 0; i < len(body); i++ {
+		if body[i] == '"' && (i == 0 || body[i-1] != '\\') {
+			return body, false
+		}
+	}
+	return body, true
+}
+
+func vfC38ByteCase(o *Options) (string, map[string]any) {
+	ref := vfC38RefBytes(o)
+	refOK := fmt.Sprintf("%x", sha1.Sum(ref)) == o.GetHash()
+	shapeOK := true
+	var quotes []string
+	seen := map[string]bool{}
+	strs := append(append([]string{o.ScipCTagsPath}, o.LargeFiles...), vfSortedKeys(o.LanguageMap)...)
+	for _, s := range strs {
+		if seen[s] {
+			continue
+		}
+		seen[s] = true
+		body, ok := vfC38QuoteBody(s)
+		shapeOK = shapeOK && ok
+		quotes = append(quotes, cTuple(cStr(s), cStr(body)))
+	}
+	var lf, lm []string
+	for _, s := range o.LargeFiles {
+		lf = append(lf, cStr(s))
+	}
+	for _, k := range vfSortedKeys(o.LanguageMap) {
+		lm = append(lm, cTuple(cStr(k), cN(uint64(o.LanguageMap[k]))))
+	}
+	rec := cApp("mkHopts", cStr(o.CTagsPath), cBool(o.CTagsMustSucceed), cZ(int64(o.SizeMax)), cList(lf), cBool(o.DisableCTags),
+		cZ(int64(o.TrigramMax)), cStr(o.ScipCTagsPath), cList(lm))
+	return cApp("ByteCase", rec, cList(quotes), cBytes(ref), cBool(refOK), cBool(shapeOK)),
+		map[string]any{"kind": "bytes", "o": vfC38OptsJSON(o), "ref": string(ref), "ref_sha1_is_gethash": refOK, "quote_shape_ok": shapeOK}
 }
 
 // ---------------------------------------------------------------- repositories <-> Coq
@@ -395,6 +572,7 @@ func vfC38Dump(dir string) (string, error) {
 		return "NO-SHARDS", nil
 	}
 	var lines []string
+	repoSyms := map[string]bool{}
 	re, _ := syntax.Parse(".", syntax.Perl)
 	for _, fn := range shards {
 		f, err := os.Open(fn)
@@ -436,10 +614,14 @@ func vfC38Dump(dir string) (string, error) {
 		rl, err := s.List(context.Background(), &query.Const{Value: true}, nil)
 		if err == nil {
 			for _, e := range rl.Repos {
-				lines = append(lines, fmt.Sprintf("repo %s hassymbols=%v", e.Repository.Name, e.Repository.HasSymbols))
+				// one line per repository, however many shards it was split into (ShardMax is not content-affecting)
+				repoSyms[e.Repository.Name] = repoSyms[e.Repository.Name] || e.Repository.HasSymbols
 			}
 		}
 		s.Close()
+	}
+	for name, hs := range repoSyms {
+		lines = append(lines, fmt.Sprintf("repo %s hassymbols=%v", name, hs))
 	}
 	sort.Strings(lines)
 	return strings.Join(lines, "\n"), nil
@@ -459,6 +641,8 @@ func vfC38Corpus() []Document {
 		{Name: "big.txt", Content: big.Bytes(), Branches: br},
 		{Name: "many.txt", Content: many.Bytes(), Branches: br},
 		{Name: "other.go", Content: []byte("package a\nfunc Other() {}\n"), Branches: br},
+		// a non-Go document: parsed by universal-ctags even when the language map sends Go to scip-ctags
+		{Name: "notes.txt", Content: []byte("notes\nfunc Note\nvar Vee\n"), Branches: br},
 		// typical targets of filtering options, so that a NEW option acting on them is observable by the rebuild-and-diff oracle
 		{Name: ".hidden.go", Content: []byte("package a\nfunc Hidden() {}\n"), Branches: br},
 		{Name: "vendor/dep/dep.go", Content: []byte("package dep\nfunc Dep() {}\n"), Branches: br},
@@ -551,6 +735,9 @@ func TestVerifC38(t *testing.T) {
 		s1: vfC38FakeBin(t, tmp, "scip-ctags-1", "s1"), s2: vfC38FakeBin(t, tmp, "scip-ctags-2", "s2"),
 		fail: vfC38FakeBin(t, tmp, "universal-ctags-fail", "fail"),
 	}
+	os.MkdirAll(filepath.Join(tmp, "alt"), 0o755)
+	env.u1alt = vfC38FakeBin(t, filepath.Join(tmp, "alt"), "universal-ctags-1", "u2")
+	env.s1alt = vfC38FakeBin(t, filepath.Join(tmp, "alt"), "scip-ctags-1", "s2")
 	fields := vfC38Fields()
 	vfInfo(map[string]any{"options_value_fields": fields})
 	in := &vfC38Intern{}
@@ -568,6 +755,8 @@ func TestVerifC38(t *testing.T) {
 			ShardMax: []int{100 << 20, 600}[r.Intn(2)], DisableCTags: !withCtags}
 		if r.Chance(30) {
 			o.LargeFiles = []string{"big.txt"}
+		} else if r.Chance(50) {
+			o.LargeFiles = vfC38GenLargeFiles(r)
 		}
 		if withCtags {
 			o.CTagsPath = env.u1
@@ -576,6 +765,13 @@ func TestVerifC38(t *testing.T) {
 			}
 			if r.Chance(40) {
 				o.LanguageMap = ctags.LanguageMap{"go": ctags.ScipCTags}
+				// more entries (languages the corpus does not contain), inserted in random order
+				for _, l := range []string{"c", "python", "zig", "ada"} {
+					if r.Chance(35) {
+						o.LanguageMap[l] = []ctags.CTagsParserType{ctags.NoCTags, ctags.UniversalCTags, ctags.ScipCTags}[r.Intn(3)]
+					}
+				}
+				o.LanguageMap = vfC38ReinsertMap(r, o.LanguageMap)
 			}
 		} else if r.Chance(30) {
 			// paths set although ctags is disabled: still hashed
@@ -609,7 +805,111 @@ func TestVerifC38(t *testing.T) {
 			o2 = o1
 			flipped = append(flipped, "reverted")
 		}
+		if i%3 == 0 { // list-/map-valued options: same elements, rearranged
+			if len(o1.LargeFiles) < 2 {
+				for len(o1.LargeFiles) < 2 || reflect.DeepEqual(o1.LargeFiles[0], o1.LargeFiles[1]) {
+					o1.LargeFiles = vfC38GenLargeFiles(r)
+				}
+				o2 = o1
+				flipped = nil
+			}
+			vs := vfC38ListVariants(o1.LargeFiles)
+			kind := r.Pick(vfSortedKeys(vs))
+			o2.LargeFiles = vs[kind]
+			flipped = append(flipped, "LargeFiles:"+kind)
+			if len(o1.LanguageMap) > 0 {
+				o2.LanguageMap = vfC38ReinsertMap(r, o2.LanguageMap)
+			}
+		}
+		if i%7 == 3 { // splices: move bytes of the concatenated encoding across the boundaries between the hashed values
+			o1 = genOpts(false)
+			o2 = o1
+			flipped = []string{"splice"}
+			switch r.Intn(10) {
+			case 8: // near misses of a path: another directory, another case, trailing blank / slash (different binaries)
+				f := r.Pick([]string{"CTagsPath", "ScipCTagsPath"})
+				p := r.Pick([]string{env.u1, env.s1, "/usr/local/bin/ctags", "bin/Universal-Ctags"})
+				q := []string{filepath.Join(filepath.Dir(p), "alt", filepath.Base(p)), filepath.Base(p), strings.ToUpper(p), strings.ToLower(p) + " ", p + "/", " " + p}[r.Intn(6)]
+				reflect.ValueOf(&o1).Elem().FieldByName(f).SetString(p)
+				o2 = o1
+				reflect.ValueOf(&o2).Elem().FieldByName(f).SetString(q)
+			case 9: // near misses of a pattern list: case, blanks, a pattern and its negation
+				o1.LargeFiles = []string{r.Pick(vfC38Patterns), r.Pick(vfC38Patterns)}
+				o2.LargeFiles = append([]string(nil), o1.LargeFiles...)
+				k := r.Intn(2)
+				o2.LargeFiles[k] = []string{strings.ToUpper(o1.LargeFiles[k]), o1.LargeFiles[k] + " ", "!" + o1.LargeFiles[k], strings.TrimPrefix(o1.LargeFiles[k], "!")}[r.Intn(4)]
+			case 0: // the unterminated raw CTagsPath absorbs the following %t
+				o2.CTagsPath = o1.CTagsPath + fmt.Sprintf("%t", o1.CTagsMustSucceed)
+				o2.CTagsMustSucceed = r.Bool()
+			case 1: // ... and the %d%q%t after it
+				o2.CTagsPath = o1.CTagsPath + fmt.Sprintf("%t%d%q%t", o1.CTagsMustSucceed, o1.SizeMax, o1.LargeFiles, o1.DisableCTags)
+			case 2: // one element with a space vs two elements; quotes inside an element
+				o1.LargeFiles = []string{"a b", "c"}
+				o2.LargeFiles = [][]string{{"a", "b", "c"}, {"a b c"}, {`a" "b`, "c"}, {`a b" "c`}}[r.Intn(4)]
+			case 3: // digits moving between SizeMax and the list / the tail
+				o1.SizeMax, o1.LargeFiles = 12, []string{"3"}
+				o2.SizeMax, o2.LargeFiles = 123, []string{""}
+			case 4: // the optional tail writes spelled inside a string value
+				o1.TrigramMax, o1.ScipCTagsPath = 7, "s"
+				o2.TrigramMax, o2.ScipCTagsPath = 0, r.Pick([]string{`trigramMax=7scipCTagsPath="s"`, `s"trigramMax=7`, "s"})
+				if r.Bool() {
+					o2.CTagsPath = o1.CTagsPath + `trigramMax=7`
+				}
+			case 5: // language map entries spelled inside a key / inside the scip path
+				o1.LanguageMap = ctags.LanguageMap{"a": 1, "b": 2}
+				o2.LanguageMap = []ctags.LanguageMap{{`a":1languageMap="b`: 2}, {"a": 1}, {"a": 12}, {"a": 1, "b": 2, "": 0}}[r.Intn(4)]
+				if r.Bool() {
+					o2.ScipCTagsPath = `x"languageMap="b":2`
+				}
+			case 6: // the last element of the list absorbs the %t after it
+				o1.LargeFiles, o1.DisableCTags = []string{"x"}, true
+				o2.LargeFiles, o2.DisableCTags = []string{`x"]true`}, r.Bool()
+			case 7: // 0 / default / explicit default of TrigramMax, negative numbers
+				o1.TrigramMax = []int{0, 20000, -1, 1}[r.Intn(4)]
+				o2.TrigramMax = []int{0, 20000, -1, 1}[r.Intn(4)]
+				o2.SizeMax = []int{o1.SizeMax, -o1.SizeMax}[r.Intn(2)]
+			}
+		}
 		h1, h2 := o1.GetHash(), o2.GetHash()
+		if h1 == h2 {
+			// equal hashes => IndexState can say "equal": every scalar content-affecting option must have the same effective value
+			e1, e2 := o1, o2
+			e1.SetDefaults()
+			e2.SetDefaults()
+			for _, f := range []string{"SizeMax", "TrigramMax", "DisableCTags", "CTagsPath", "ScipCTagsPath", "CTagsMustSucceed"} {
+				v1, v2 := reflect.ValueOf(e1).FieldByName(f).Interface(), reflect.ValueOf(e2).FieldByName(f).Interface()
+				if f == "SizeMax" {
+					v1, v2 = o1.SizeMax, o2.SizeMax // GetHash sees the value as given; 0 is only replaced by the builder
+				}
+				if !reflect.DeepEqual(v1, v2) {
+					vfOracleFail("hash-equal:"+f, "two option sets with different "+f+" have the same GetHash(): IndexState reports equal and the re-index is skipped",
+						map[string]any{"field": f, "o1": vfC38OptsJSON(&o1), "o2": vfC38OptsJSON(&o2), "hash": h1})
+				}
+			}
+			// ... and the large-file decisions of the two option sets must agree
+			if name, same := vfC38SameLargeFileDecisions(&o1, &o2); !same {
+				vfOracleFail("hash-equal:LargeFiles", fmt.Sprintf("two LargeFiles lists that decide differently about %q (IgnoreSizeMax: the last matching pattern wins) have the same GetHash(): IndexState reports equal and the re-index is skipped", name),
+					map[string]any{"field": "LargeFiles", "name": name, "o1": vfC38OptsJSON(&o1), "o2": vfC38OptsJSON(&o2), "hash": h1,
+						"ignoreSizeMax_o1": o1.IgnoreSizeMax(name), "ignoreSizeMax_o2": o2.IgnoreSizeMax(name)})
+			}
+			if (len(o1.LanguageMap) > 0 || len(o2.LanguageMap) > 0) && !reflect.DeepEqual(o1.LanguageMap, o2.LanguageMap) {
+				vfOracleFail("hash-equal:LanguageMap", "two different LanguageMaps have the same GetHash()",
+					map[string]any{"field": "LanguageMap", "o1": vfC38OptsJSON(&o1), "o2": vfC38OptsJSON(&o2), "hash": h1})
+			}
+		}
+		{ // the bytes that are hashed: reference encoder vs real hash (here), Coq byte model vs reference encoder (runner)
+			bc, bj := vfC38ByteCase(&o2)
+			vfCase(bc, vfKey("bytes", bc), len(flipped) > 0, []string{"bytes", fmt.Sprintf("bytes-ref-ok=%v", bj["ref_sha1_is_gethash"])}, bj)
+		}
+		if len(o1.LanguageMap) > 1 {
+			// the same option VALUES (map re-inserted in another order) must hash the same, every time
+			o1r := o1
+			o1r.LanguageMap = vfC38ReinsertMap(r, o1.LanguageMap)
+			if hr := o1r.GetHash(); hr != h1 || o1.GetHash() != h1 {
+				vfOracleFail("hash-unstable:LanguageMap", "GetHash() differs between two calls on equal options (map iteration order?)",
+					map[string]any{"o1": vfC38OptsJSON(&o1), "hash1": h1, "hash2": hr})
+			}
+		}
 		coq := cApp("HashCase", vfC38OptsCoq(&o1), vfC38OptsCoq(&o2), cBool(h1 == h2))
 		vfCase(coq, vfKey("hash", vfC38OptsCoq(&o1), vfC38OptsCoq(&o2)), len(flipped) > 0,
 			[]string{"hash", fmt.Sprintf("hash-eq=%v", h1 == h2)}, map[string]any{"kind": "hash", "o1": vfC38OptsJSON(&o1), "flipped": flipped, "equal": h1 == h2})
@@ -825,7 +1125,13 @@ func TestVerifC38(t *testing.T) {
 			o1 := Options{SizeMax: 1000, TrigramMax: 20000, Parallelism: 1, ShardMax: 100 << 20, DisableCTags: true,
 				RepositoryDescription: zoekt.Repository{Name: "repo", ID: 7, Branches: []zoekt.RepositoryBranch{{Name: "HEAD", Version: "v1"}}}}
 			switch base {
+			case "plain":
+				// big.txt and many.txt exceed SizeMax; the last matching pattern decides: big.txt is indexed (the second
+				// "*.txt" wins over "!big.txt"); after de-duplication it would not be
+				o1.LargeFiles = []string{"*.txt", "!big.txt", "*.txt"}
 			case "ctags":
+				// big.txt is matched by a positive and a LATER negated pattern: not indexed; in any other order it is
+				o1.LargeFiles = []string{"*.txt", "!big.txt"}
 				o1.DisableCTags = false
 				o1.CTagsPath, o1.ScipCTagsPath = env.u1, env.s1
 				o1.LanguageMap = ctags.LanguageMap{"go": ctags.ScipCTags}
@@ -853,32 +1159,67 @@ func TestVerifC38(t *testing.T) {
 				if f == "IndexDir" || (base == "ctags-failing" && f != "CTagsMustSucceed") {
 					continue
 				}
-				o2 := o1
-				vfC38Flip(r, &o2, f, env)
-				st, _ := o2.IndexState() // against dirA
-				if st != IndexStateEqual && vfTier() != "thorough" {
-					// a re-index happens anyway; the rebuild comparison is only needed for skipped re-indexes
-					vfInfo(map[string]any{"e2e": base, "field": f, "state": st})
-					continue
+				// the alternatives for field f: one changed value, and for list-valued fields every rearrangement
+				// of the same elements (order can matter: LargeFiles)
+				type vfAlt struct {
+					what string
+					o    Options
 				}
-				dirB := newDir()
-				o2b := o2
-				o2b.IndexDir = dirB
-				msgB := vfC38Build(o2b, docs)
-				dumpB, err := vfC38Dump(dirB)
-				if err != nil {
-					t.Fatalf("dump: %v", err)
+				oflip := o1
+				vfC38Flip(r, &oflip, f, env)
+				alts := []vfAlt{{"flip", oflip}}
+				if fv := reflect.ValueOf(&o1).Elem().FieldByName(f); fv.Kind() == reflect.Slice && fv.Type().Elem().Kind() == reflect.String {
+					vs := vfC38ListVariants(fv.Interface().([]string))
+					for _, k := range vfSortedKeys(vs) {
+						o3 := o1
+						reflect.ValueOf(&o3).Elem().FieldByName(f).Set(reflect.ValueOf(vs[k]))
+						alts = append(alts, vfAlt{k, o3})
+					}
 				}
-				if msgB != "" {
-					dumpB = "BUILD-ERROR"
+				// a different binary with the same base name (a hash of the base name only would not notice)
+				if f == "CTagsPath" && o1.CTagsPath == env.u1 {
+					o3 := o1
+					o3.CTagsPath = env.u1alt
+					alts = append(alts, vfAlt{"same-basename-other-dir", o3})
 				}
-				differ := dumpA != dumpB
-				vfInfo(map[string]any{"e2e": base, "field": f, "state": st, "content_differs": differ})
-				if st == IndexStateEqual && differ {
-					vfOracleFail("unhashed:"+f, "after changing option "+f+" IndexState still reports equal (re-index skipped) although a rebuild with the new value produces different index contents",
-						map[string]any{"field": f, "base": base, "o1": vfC38OptsJSON(&o1), "o2": vfC38OptsJSON(&o2), "contents_old": dumpA, "contents_new": dumpB})
+				if f == "ScipCTagsPath" && o1.ScipCTagsPath == env.s1 {
+					o3 := o1
+					o3.ScipCTagsPath = env.s1alt
+					alts = append(alts, vfAlt{"same-basename-other-dir", o3})
 				}
-				os.RemoveAll(dirB)
+				for _, alt := range alts {
+					o2 := alt.o
+					key := "unhashed:" + f
+					if alt.what == "same-basename-other-dir" {
+						key = "changed:" + f
+					} else if alt.what != "flip" {
+						key = "rearranged:" + f
+					}
+					st, _ := o2.IndexState() // against dirA
+					if st != IndexStateEqual && vfTier() != "thorough" {
+						// a re-index happens anyway; the rebuild comparison is only needed for skipped re-indexes
+						vfInfo(map[string]any{"e2e": base, "field": f, "alt": alt.what, "state": st})
+						continue
+					}
+					dirB := newDir()
+					o2b := o2
+					o2b.IndexDir = dirB
+					msgB := vfC38Build(o2b, docs)
+					dumpB, err := vfC38Dump(dirB)
+					if err != nil {
+						t.Fatalf("dump: %v", err)
+					}
+					if msgB != "" {
+						dumpB = "BUILD-ERROR"
+					}
+					differ := dumpA != dumpB
+					vfInfo(map[string]any{"e2e": base, "field": f, "alt": alt.what, "state": st, "content_differs": differ})
+					if st == IndexStateEqual && differ {
+						vfOracleFail(key, "after changing option "+f+" ("+alt.what+") IndexState still reports equal (re-index skipped) although a rebuild with the new value produces different index contents",
+							map[string]any{"field": f, "change": alt.what, "base": base, "o1": vfC38OptsJSON(&o1), "o2": vfC38OptsJSON(&o2), "contents_old": dumpA, "contents_new": dumpB})
+					}
+					os.RemoveAll(dirB)
+				}
 			}
 		}
 	}
